@@ -23,23 +23,91 @@ var c04Patterns = []string{
 	".x.b.x", ".x.a.x.", ".x.y.x",
 }
 
-func c04Patch(pat string, open, close string) string {
+func c04Patch(pat string, open, close string) string { return c04PatchSep(pat, open, close, ",") }
+
+// c04PatchSep: sep is "," for expression lists and "()" for statement lists
+// (elements are then the call statements a(), z(), x() ...).
+func c04PatchSep(pat string, open, close, sep string) string {
 	var b strings.Builder
 	b.WriteString("@@\nvar x, y identifier\n@@\n " + open + "\n")
+	dots := "   ...,\n"
+	if sep != "," {
+		dots = "   ...\n"
+	}
 	for _, c := range pat {
 		switch c {
 		case '.':
-			b.WriteString("   ...,\n")
+			b.WriteString(dots)
 		case 'a':
-			b.WriteString("-  a,\n+  z,\n")
+			b.WriteString("-  a" + sep + "\n+  z" + sep + "\n")
 		case 'A':
-			b.WriteString("-  a,\n+  z,\n+  w,\n")
+			b.WriteString("-  a" + sep + "\n+  z" + sep + "\n+  w" + sep + "\n")
 		default:
-			fmt.Fprintf(&b, "   %c,\n", c)
+			fmt.Fprintf(&b, "   %c%s\n", c, sep)
 		}
 	}
 	b.WriteString(" " + close + "\n")
 	return b.String()
+}
+
+// c04Kind describes one kind of list an elision can stand in.
+type c04Kind struct {
+	name        string
+	open, close string
+	sep         string
+	src         func(n int) string               // target with n placeholder elements q
+	site        func(f *ast.File) ast.Node       // the node the pattern matches
+	elems       func(site ast.Node) []*ast.Ident // the identifiers standing for the list elements, in order
+	count       func(site ast.Node) int          // number of list elements
+}
+
+func c04Repeat(n int, elem, sep string) string {
+	var parts []string
+	for i := 0; i < n; i++ {
+		parts = append(parts, elem)
+	}
+	return strings.Join(parts, sep)
+}
+
+var c04Kinds = []c04Kind{
+	{name: "f(", open: "f(", close: ")", sep: ",",
+		src:  func(n int) string { return "package p\n\nvar _ = f(" + c04Repeat(n, "q", ", ") + ")\n" },
+		site: func(f *ast.File) ast.Node { return f.Decls[0].(*ast.GenDecl).Specs[0].(*ast.ValueSpec).Values[0] },
+		elems: func(s ast.Node) (out []*ast.Ident) {
+			for _, a := range s.(*ast.CallExpr).Args {
+				id, _ := a.(*ast.Ident)
+				out = append(out, id)
+			}
+			return
+		},
+		count: func(s ast.Node) int { return len(s.(*ast.CallExpr).Args) }},
+	{name: "T{", open: "T{", close: "}", sep: ",",
+		src:  func(n int) string { return "package p\n\nvar _ = T{" + c04Repeat(n, "q", ", ") + "}\n" },
+		site: func(f *ast.File) ast.Node { return f.Decls[0].(*ast.GenDecl).Specs[0].(*ast.ValueSpec).Values[0] },
+		elems: func(s ast.Node) (out []*ast.Ident) {
+			for _, a := range s.(*ast.CompositeLit).Elts {
+				id, _ := a.(*ast.Ident)
+				out = append(out, id)
+			}
+			return
+		},
+		count: func(s ast.Node) int { return len(s.(*ast.CompositeLit).Elts) }},
+	{name: "func g() {", open: "func g() {", close: "}", sep: "()",
+		src:  func(n int) string { return "package p\n\nfunc g() {\n" + c04Repeat(n, "\tq()\n", "") + "}\n" },
+		site: func(f *ast.File) ast.Node { return f.Decls[0] },
+		elems: func(s ast.Node) (out []*ast.Ident) {
+			for _, st := range s.(*ast.FuncDecl).Body.List {
+				var id *ast.Ident
+				if es, ok := st.(*ast.ExprStmt); ok {
+					if c, ok := es.X.(*ast.CallExpr); ok && len(c.Args) == 0 {
+						id, _ = c.Fun.(*ast.Ident)
+					}
+				}
+				out = append(out, id)
+			}
+			return
+		},
+		count: func(s ast.Node) int { return len(s.(*ast.FuncDecl).Body.List) }},
 }
 
 // c04Assignments enumerates every way of placing the explicit elements of
@@ -114,7 +182,8 @@ func VerifC04Args() {
 	pat := c04Patterns[nd.Choose("pattern", len(c04Patterns))]
 	n := nd.Choose("n", nd.Param("N", 4)+1)
 	fset := token.NewFileSet()
-	pp, err := parse.Parse(fset, "p.patch", []byte(c04Patch(pat, "f(", ")")))
+	kd := c04Kinds[nd.Param("KIND", 0)]
+	pp, err := parse.Parse(fset, "p.patch", []byte(c04PatchSep(pat, kd.open, kd.close, kd.sep)))
 	if err != nil {
 		panic("harness: " + err.Error())
 	}
@@ -122,27 +191,19 @@ func VerifC04Args() {
 	if err != nil {
 		panic("harness: " + err.Error())
 	}
-	// target f(e0, ..., e(n-1)) with symbolic one-letter names
+	// target list of n elements with symbolic one-letter names
 	names := make([]string, n)
-	src := "package p\n\nvar _ = f("
-	for i := 0; i < n; i++ {
-		if i > 0 {
-			src += ", "
-		}
-		src += "q"
-	}
-	src += ")\n"
-	file, err := parser.ParseFile(fset, "a.go", src, 0)
+	file, err := parser.ParseFile(fset, "a.go", kd.src(n), 0)
 	if err != nil {
 		panic("harness: " + err.Error())
 	}
-	call := file.Decls[0].(*ast.GenDecl).Specs[0].(*ast.ValueSpec).Values[0].(*ast.CallExpr)
-	for i := 0; i < n; i++ {
+	call := kd.site(file)
+	for i, id := range kd.elems(call) {
 		b := nd.Byte("e")
 		nd.Assume(b >= 'a')
 		nd.Assume(b <= 'c')
 		names[i] = string([]byte{b})
-		call.Args[i].(*ast.Ident).Name = names[i]
+		id.Name = names[i]
 	}
 	ch := prog.Changes[0]
 	d, got := ch.matcher.NodeMatcher.Match(reflect.ValueOf(call), data.New(), nodeRegion(call))
@@ -176,7 +237,7 @@ func VerifC04Args() {
 		valid[k] = ok
 		want = nd.Or(want, ok)
 	}
-	nd.Assert(nd.Iff(got, want), "pattern f("+pat+") on "+fmt.Sprint(n)+" arguments: matched iff some choice of runs makes every explicit element match in order")
+	nd.Assert(nd.Iff(got, want), "pattern f("+pat+") on "+fmt.Sprint(n)+" arguments"+c04KindSuffix(kd)+": matched iff some choice of runs makes every explicit element match in order")
 	nd.Reach("matched-or-not")
 	if !got {
 		return
@@ -186,16 +247,17 @@ func VerifC04Args() {
 	if rerr != nil {
 		return
 	}
-	oc, isCall := out.Interface().(*ast.CallExpr)
-	nd.Assert(isCall, "pattern f("+pat+"): rewritten node is not a call")
-	if !isCall {
+	oc, isNode := out.Interface().(ast.Node)
+	nd.Assert(isNode && reflect.TypeOf(oc) == reflect.TypeOf(call), "pattern f("+pat+"): rewritten node is of another kind")
+	if !isNode || reflect.TypeOf(oc) != reflect.TypeOf(call) {
 		return
 	}
 	extra := strings.Count(pat, "A")
-	nd.Assert(len(oc.Args) == n+extra, "pattern f("+pat+"): the rewritten list lost or gained elements")
-	if len(oc.Args) != n+extra {
+	nd.Assert(kd.count(oc) == n+extra, "pattern f("+pat+"): the rewritten list lost or gained elements")
+	if kd.count(oc) != n+extra {
 		return
 	}
+	outElems := kd.elems(oc)
 	// the first valid assignment (shortest runs, left to right) determines the result
 	earlier := false
 	for k, a := range asg {
@@ -221,8 +283,8 @@ func VerifC04Args() {
 			}
 		}
 		for j := range exp {
-			id, isIdent := oc.Args[j].(*ast.Ident)
-			if !isIdent {
+			id := outElems[j]
+			if id == nil {
 				nd.Assert(false, "rewritten element is not an identifier")
 				continue
 			}
@@ -234,4 +296,11 @@ func VerifC04Args() {
 		}
 	}
 	nd.Reach("replaced")
+}
+
+func c04KindSuffix(kd c04Kind) string {
+	if kd.name == "f(" {
+		return ""
+	}
+	return " [list kind " + kd.name + "]"
 }
